@@ -13,17 +13,21 @@
 (***************************************************************************)
 EXTENDS Integers, Sequences, FiniteSets, TLC
 
-CONSTANTS Keys, Vals, MaxOps, FinalInRoot, InitRecomputes
+CONSTANTS Keys, Vals, MaxOps, FinalInRoot, InitRecomputes,
+          TrustPrevOnEmpty   \* deviation (seeded C15f): an empty block returns the previous root the caller passed
 Inst == {1, 2}
 TxSet == [k : Keys, v : Vals, bad : {FALSE}] \cup {[k |-> "?", v |-> "?", bad |-> TRUE]}
 Blocks == {<<t>> : t \in TxSet} \cup {<<t, u>> : t \in TxSet, u \in TxSet} \cup {<<>>}
 
 VARIABLES kv, fin, hist, genesis, ops,
-          initRet      \* per instance: the sequence of roots InitChain has returned
-vars == <<kv, fin, hist, genesis, ops, initRet>>
+          initRet,     \* per instance: the sequence of roots InitChain has returned
+          lastRet,     \* per instance: what the last successful ExecuteTxs returned (<<>> before the first)
+          seenRoots    \* every root any call has returned so far: what a caller may pass as "previous state root"
+vars == <<kv, fin, hist, genesis, ops, initRet, lastRet, seenRoots>>
 
 Init == /\ kv = [i \in Inst |-> <<>>] /\ fin = [i \in Inst |-> 0] /\ hist = [i \in Inst |-> <<>>]
         /\ genesis = [i \in Inst |-> <<>>] /\ ops = 0 /\ initRet = [i \in Inst |-> <<>>]
+        /\ lastRet = [i \in Inst |-> <<>>] /\ seenRoots = {}
 
 RECURSIVE Apply(_, _)
 Apply(m, b) == IF b = <<>> THEN m ELSE Apply((Head(b).k :> Head(b).v) @@ m, Tail(b))
@@ -33,18 +37,26 @@ Root(i) == IF FinalInRoot THEN <<kv[i], fin[i]>> ELSE <<kv[i]>>
 \* the first InitChain records the root of the state it finds (<<root>>); later ones return the recorded root
 InitChain(i) == /\ genesis' = [genesis EXCEPT ![i] = IF @ = <<>> THEN <<Root(i)>> ELSE @]
                 /\ initRet' = [initRet EXCEPT ![i] = Append(@, IF genesis[i] = <<>> \/ InitRecomputes THEN Root(i) ELSE genesis[i][1])]
-                /\ UNCHANGED <<kv, fin, hist>>
-Exec(i, b) == /\ IF Bad(b) THEN UNCHANGED <<kv, hist>>
-                 ELSE kv' = [kv EXCEPT ![i] = Apply(@, b)] /\ hist' = [hist EXCEPT ![i] = Append(@, b)]
-              /\ UNCHANGED <<fin, genesis, initRet>>
-Final(i, h) == /\ fin' = [fin EXCEPT ![i] = h] /\ UNCHANGED <<kv, hist, genesis, initRet>>
+                /\ UNCHANGED <<kv, fin, hist, lastRet, seenRoots>>
+\* prev: the previous state root the caller passes - none, or any root some call has returned (right, stale, another node's)
+RootOf(m, f) == IF FinalInRoot THEN <<m, f>> ELSE <<m>>
+Exec(i, b, prev) ==
+    /\ IF Bad(b) THEN UNCHANGED <<kv, hist, lastRet, seenRoots>>
+       ELSE /\ kv' = [kv EXCEPT ![i] = Apply(@, b)] /\ hist' = [hist EXCEPT ![i] = Append(@, b)]
+            /\ LET r == IF TrustPrevOnEmpty /\ b = <<>> /\ prev # <<>> THEN prev[1] ELSE RootOf(Apply(kv[i], b), fin[i])
+               IN lastRet' = [lastRet EXCEPT ![i] = <<r>>] /\ seenRoots' = seenRoots \cup {r}
+    /\ UNCHANGED <<fin, genesis, initRet>>
+Final(i, h) == /\ fin' = [fin EXCEPT ![i] = h] /\ UNCHANGED <<kv, hist, genesis, initRet, lastRet, seenRoots>>
 
 Next == /\ ops < MaxOps /\ ops' = ops + 1
-        /\ \E i \in Inst : InitChain(i) \/ (\E b \in Blocks : Exec(i, b)) \/ (\E h \in 1 .. 2 : Final(i, h))
+        /\ \E i \in Inst : InitChain(i) \/ (\E b \in Blocks, prev \in {<<>>} \cup {<<r>> : r \in seenRoots} : Exec(i, b, prev)) \/ (\E h \in 1 .. 2 : Final(i, h))
 Spec == Init /\ [][Next]_vars
 
 \* C15: equal executed-transaction histories give equal roots, whatever was finalized when
 EqualHistoriesEqualRoots == hist[1] = hist[2] => Root(1) = Root(2)
 \* chain initialization is idempotent: every InitChain of an instance returns what its first one returned
+\* the root ExecuteTxs returns is the root of the state it leaves behind, whatever previous root the caller passed
+\* (checked right after the call: a later finalization may legitimately change nothing but must not be needed)
+ReturnedIsCurrent == \A i \in Inst : lastRet[i] # <<>> => (FinalInRoot \/ lastRet[i][1] = <<kv[i]>>)
 InitIdempotent == \A i \in Inst : \A j \in 1 .. Len(initRet[i]) : initRet[i][j] = initRet[i][1]
 ==========================================================================
